@@ -15,7 +15,7 @@ def gen_prune_tail(repo):
 
 
 PLAN = dict(
-    id="C16", level="other", explanation='Time arithmetic and the rotation election: Rotation::round_date is the start of the period containing the instant (component form, every valid instant of 1970..=2399); next_date is exactly one period after that start, strictly after now, on a boundary (bounded to those years); Inner::should_rollover returns the stored boundary iff it is non-zero and reached - so time standing still or stepping back below the boundary never rotates; Inner::advance_date wins iff nobody advanced the boundary first, stores next_date(now) which is strictly beyond now and the old boundary, after which the same instant does not rotate again and a second caller holding the old boundary loses (single rotation per boundary). File-system effects and pruning are out of reach.',
+    id="C16", api_files=['tracing-appender/src/rolling.rs'], level="other", explanation='Time arithmetic and the rotation election: Rotation::round_date is the start of the period containing the instant (component form, every valid instant of 1970..=2399); next_date is exactly one period after that start, strictly after now, on a boundary (bounded to those years); Inner::should_rollover returns the stored boundary iff it is non-zero and reached - so time standing still or stepping back below the boundary never rotates; Inner::advance_date wins iff nobody advanced the boundary first, stores next_date(now) which is strictly beyond now and the old boundary, after which the same instant does not rotate again and a second caller holding the old boundary loses (single rotation per boundary). File-system effects and pruning are out of reach.',
     functions_under_contract=['tracing-appender/src/rolling.rs: Inner::prune_old_logs - the part after the directory listing (early return, sort by creation time, removal loop), extracted mechanically on every run; std sort_by_key replaced by a stable insertion sort (assumed contract)', 'tracing-appender/src/rolling.rs: Rotation::{round_date,next_date}, Inner::{should_rollover,advance_date}'],
     trusted_base=["Kani 0.68 / CBMC 6.11 / CaDiCaL; Kani's std build (nightly-2026-08-21), not the repo toolchain's", 'core::fmt::Formatter::pad stubbed to Ok(()) with -Z stubbing (panic-message formatting on infeasible error branches; no harness that uses it reads formatted text)', 'cfg(kani) thread_local! shim and once_cell::sync::Lazy contract stub (see overlay_additions)', "the `time` crate's Date/Time/OffsetDateTime arithmetic is executed, not stubbed"],
     assumptions=['atomicity of the compare_exchange (sequential execution)', 'timestamps >= 0 (`as usize` casts)'],
